@@ -247,7 +247,15 @@ class LessParser(object):
         if isinstance(p[3], string_types):
             ipath = utility.destring(p[3])
         elif isinstance(p[3], list):
-            p[3] = Import(p[3], p.lineno(4)).parse(self.scope)
+            try:
+                p[3] = Import(p[3], p.lineno(4)).parse(self.scope)
+            except SyntaxError as e:
+                # (an unknown variable in the path) raised from a grammar
+                # action it would make yacc discard the rest of the sheet
+                # without a word
+                self.handle_error(e, p.lineno(1))
+                p[0] = None
+                return
             ipath = utility.destring(p[3])
         elif isinstance(p[3], Call):
             # NOTE(saschpe): Always in the form of 'url("...");', so parse it
@@ -687,7 +695,13 @@ class LessParser(object):
                 else:
                     p[1] = value
         if isinstance(p[1], Expression):
-            p[0] = p[1].parse(self.scope)
+            try:
+                p[0] = p[1].parse(self.scope)
+            except SyntaxError as e:
+                # raised from a grammar action it would make yacc drop the
+                # whole block without a word
+                self.handle_error(e, p.lineno(1))
+                p[0] = None
         else:
             p[0] = p[1]
 
